@@ -289,18 +289,20 @@ static void interfere(Rng &r, std::vector<Runner *> &others, std::vector<Hist> &
 struct TEvent { uint32_t ticket; uint8_t thread; uint8_t begin; };
 struct ThreadCtx
 {
-    int index; const Hist *h; Out out; uint64_t yseed; pthread_barrier_t *barrier; std::atomic<uint32_t> *ticket; std::vector<TEvent> events; std::atomic<int> *in_call; std::vector<uint32_t> overlap_with;
+    int index; const Hist *h; Out out; uint64_t yseed; Runner *pre; pthread_barrier_t *barrier; std::atomic<uint32_t> *ticket; std::vector<TEvent> events; std::atomic<int> *in_call; std::vector<uint32_t> overlap_with;
 };
 static void *thread_main(void *arg)
 {
     ThreadCtx *t = (ThreadCtx *)arg;
     Rng yr(t->yseed, 31, (uint64_t)t->index);
     pthread_barrier_wait(t->barrier);
-    Runner r;
+    // hand-off: the instance may have been created and configured by the main thread before this thread was started; the thread that
+    // makes the calls is not part of an instance's history
+    Runner own; Runner &r = t->pre ? *t->pre : own;
     // the bookkeeping atomics are relaxed on purpose: an acquire/release ticket would order every API call of one thread before the
     // next call of any other thread and hide from ThreadSanitizer all races that are not caught red-handed
     auto mark = [&](int begin) { TEvent e; e.ticket = t->ticket->fetch_add(1, std::memory_order_relaxed); e.thread = (uint8_t)t->index; e.begin = (uint8_t)begin; t->events.push_back(e); };
-    mark(1); t->in_call[t->index].store(1, std::memory_order_relaxed); r.open(*t->h); t->in_call[t->index].store(0, std::memory_order_relaxed); mark(0);
+    if(!t->pre) { mark(1); t->in_call[t->index].store(1, std::memory_order_relaxed); r.open(*t->h); t->in_call[t->index].store(0, std::memory_order_relaxed); mark(0); }
     while(!r.done())
     {
         int y = (int)yr.below(10);
@@ -421,10 +423,14 @@ static void run_case(Case &c)
         pthread_barrier_t barrier; pthread_barrier_init(&barrier, NULL, (unsigned)nthreads);
         std::atomic<uint32_t> ticket(0); std::atomic<int> in_call[8]; for(int i = 0; i < 8; i++) in_call[i].store(0);
         std::vector<ThreadCtx> ctx((size_t)nthreads); std::vector<pthread_t> th((size_t)nthreads);
-        for(int i = 0; i < nthreads; i++) { ctx[(size_t)i].index = i; ctx[(size_t)i].h = &hs[(size_t)i]; ctx[(size_t)i].yseed = r.next(); ctx[(size_t)i].barrier = &barrier; ctx[(size_t)i].ticket = &ticket; ctx[(size_t)i].in_call = in_call; ctx[(size_t)i].overlap_with.assign(8, 0); }
+        for(int i = 0; i < nthreads; i++) { ctx[(size_t)i].index = i; ctx[(size_t)i].h = &hs[(size_t)i]; ctx[(size_t)i].yseed = r.next(); ctx[(size_t)i].barrier = &barrier; ctx[(size_t)i].ticket = &ticket; ctx[(size_t)i].in_call = in_call; ctx[(size_t)i].overlap_with.assign(8, 0); ctx[(size_t)i].pre = NULL; }
+        // about a third of the instances are created and configured here, on the main thread, and handed to their thread
+        std::vector<Runner *> handed;
+        for(int i = 0; i < nthreads; i++) if(r.chance(0.35)) { Runner *pr = new Runner(); pr->open(hs[(size_t)i]); ctx[(size_t)i].pre = pr; handed.push_back(pr); count("instances_created_on_the_main_thread_and_run_on_another"); }
         for(int i = 0; i < nthreads; i++) pthread_create(&th[(size_t)i], NULL, thread_main, &ctx[(size_t)i]);
         for(int i = 0; i < nthreads; i++) pthread_join(th[(size_t)i], NULL);
         pthread_barrier_destroy(&barrier);
+        for(size_t i = 0; i < handed.size(); i++) delete handed[i];
         // interleaving signature: global order of call begin/end events by ticket
         std::vector<TEvent> all; for(int i = 0; i < nthreads; i++) all.insert(all.end(), ctx[(size_t)i].events.begin(), ctx[(size_t)i].events.end());
         std::sort(all.begin(), all.end(), [](const TEvent &a, const TEvent &b) { return a.ticket < b.ticket; });
